@@ -751,9 +751,10 @@ fn apply_fold_specific_filter<'query, AdapterT: Adapter<'query>>(
     let field_iterator = Box::new(compute_fold_specific_field_with_separate_value(fold.eid, fold_specific_field, iterator).map(|(mut ctx, tagged_value)| {
         let value = match tagged_value {
             TaggedValue::Some(value) => value,
-            TaggedValue::NonexistentOptional => {
-                unreachable!("while applying fold-specific filter, the @fold turned out to not exist: {ctx:?}")
-            }
+            // The @fold is inside an @optional scope that doesn't exist, so it doesn't exist either.
+            // Filters inside a non-existent optional scope pass: the context has no active vertex,
+            // so `apply_filter` lets it through without looking at this placeholder value.
+            TaggedValue::NonexistentOptional => FieldValue::Null,
         };
         ctx.values.push(value);
         ctx
